@@ -51,6 +51,12 @@ type SchedOpts struct {
 	// goroutines / T steps for this many extra T steps before checking (lets background
 	// work that the oracle wants to observe complete).
 	IdleAfterDone int
+	// BranchFrom / BranchUntil (virtual time since the start of the execution; used when
+	// BranchUntil > 0): only decisions taken at an instant inside [BranchFrom, BranchUntil]
+	// are branched on, every other decision takes the default choice.  Makes the exploration
+	// of a long execution exhaustive (within the deviation bounds) around one instant -
+	// e.g. a TTL expiry - instead of spending a capped budget on its first decisions.
+	BranchFrom, BranchUntil time.Duration
 }
 
 type optionKind int
@@ -74,7 +80,8 @@ type pointInfo struct {
 	hasT           bool
 	preemptBefore  int
 	earlyTBefore   int
-	labels         []string // option labels (only recorded when tracing)
+	at             time.Duration // virtual time of the decision
+	labels         []string      // option labels (only recorded when tracing)
 }
 
 // Exec is one execution.
@@ -380,7 +387,7 @@ func (x *Exec) control() {
 			return
 		}
 		pi := pointInfo{nOptions: len(opts), anyEnabled: len(en) > 0, hasT: hasT,
-			runningEnabled: len(en) > 0 && x.sidOf(en[0]) == keepRunning && keepRunning >= 0, preemptBefore: x.preempts, earlyTBefore: x.earlyTs}
+			runningEnabled: len(en) > 0 && x.sidOf(en[0]) == keepRunning && keepRunning >= 0, preemptBefore: x.preempts, earlyTBefore: x.earlyTs, at: x.Now()}
 		choice := 0
 		idx := len(x.choices)
 		if idx < len(x.prefix) {
@@ -589,6 +596,9 @@ func Explore(t *testing.T, r *Run, o *SchedOpts) {
 	alternatives := func(x *Exec, from int, f func(np []int)) {
 		for i := from; i < len(x.points); i++ {
 			p := x.points[i]
+			if o.BranchUntil > 0 && (p.at < o.BranchFrom || p.at > o.BranchUntil) {
+				continue
+			}
 			for alt := 1; alt < p.nOptions; alt++ {
 				pre, et := p.preemptBefore, p.earlyTBefore
 				isT := p.hasT && alt == p.nOptions-1
